@@ -289,3 +289,10 @@ Fixpoint switch_calls_result (lib : list tpl) (val : enc) (cases : list (enc * e
   | (k, v) :: r => if mw_equal (codes (strip_i k)) (codes val) then strip_i (page_result lib v)
                    else switch_calls_result lib val r (if str_eqb (lower (codes (strip_i k))) s_default then Some v else defval)
   end.
+
+(* ... and with calls in the condition as well: the condition is expanded first (as part of the function's name argument),
+   and its result - with every call replaced - decides *)
+Definition if_cond_calls_ok (pfnames : list str) (lib : list tpl) (cond : enc) (more : list enc) : bool :=
+  forallb (flat_item pfnames lib) cond && forallb (forallb (flat_item pfnames lib)) more.
+Definition if_cond_calls_result (lib : list tpl) (cond : enc) (more : list enc) : enc :=
+  if_calls_result lib (page_result lib cond) more.
